@@ -16,6 +16,7 @@ mod p03;
 mod p10;
 mod p11;
 mod p16;
+mod p21;
 mod p23;
 mod p25;
 mod p29;
@@ -30,6 +31,13 @@ fn main() {
         std::process::exit(2);
     }
     let prop = args[1].clone();
+    if prop == "C21" {
+        if let Ok(spec) = std::env::var("VH_C21_CHILD") {
+            if std::env::var("VH_VERBOSE_PANIC").is_err() { std::panic::set_hook(Box::new(|_| {})); }
+            p21::child_main(&spec);
+            return;
+        }
+    }
     let mut seed = 1u64;
     let mut tier = "quick".to_string();
     let mut out = std::path::PathBuf::from(format!("/verif/.work/{prop}"));
@@ -58,6 +66,7 @@ fn main() {
         "C10" => p10::run(&mut ctx),
         "C11" => p11::run(&mut ctx),
         "C16" => p16::run(&mut ctx),
+        "C21" => p21::run(&mut ctx),
         "C23" => p23::run(&mut ctx),
         "C25" => p25::run(&mut ctx),
         "C29" => p29::run(&mut ctx),
